@@ -136,6 +136,35 @@ Proof.
   destruct (last_le x (h :: t) 0) as [j|] eqn:E; [|lia]. apply last_le_bound in E. lia.
 Qed.
 
+(* the window read as its (at most two) contiguous runs of slots is the item sequence *)
+Lemma pieces_spec ow sq q : inv ow sq q -> fst (pieces q) ++ snd (pieces q) = abs q.
+Proof.
+  intros I. unfold pieces. destruct (cnt q) as [|c] eqn:Ec; [rewrite (abs_cnt0 q Ec); reflexivity|].
+  pose proof (inv_cnt _ _ q I) as Hn. pose proof (inv_hd _ _ q I ltac:(lia)) as Hh.
+  pose proof (inv_tail _ _ q I ltac:(lia)) as Ht. rewrite Ec in Hn.
+  replace (S c - 1) with c in Ht by lia. cbn [fst snd].
+  unfold intern in Ht. cbv zeta in Ht. unfold qsize in *.
+  symmetry. apply abs_ext.
+  - autorewrite with nthdb. difh; autorewrite with nthdb; cbn [length]; lia.
+  - intros i Hi. unfold getu, intern, qsize. cbv zeta.
+    assert (Hic : i < S c).
+    { revert Hi. autorewrite with nthdb. difh; autorewrite with nthdb; cbn [length]; lia. }
+    clear Hi. autorewrite with nthdb. difh; autorewrite with nthdb; cbn [length nth]; difh; fin;
+      try (destruct (i - (length (arr q) - head q)); reflexivity).
+Qed.
+
+Lemma lex_loop_abs a b k : forall i, i + k <= cnt a -> i + k <= cnt b ->
+  lex_loop (getu a) (getu b) i k = lex_loop (fun j => nth j (abs a) 0%Z) (fun j => nth j (abs b) 0%Z) i k.
+Proof.
+  induction k as [|k IH]; intros i Ha Hb; cbn [lex_loop]; [reflexivity|].
+  rewrite !nth_abs by lia. rewrite IH by lia. reflexivity.
+Qed.
+
+Lemma lex_cmp_abs a b :
+  lex_cmp (getu a) (cnt a) (getu b) (cnt b) =
+  lex_cmp (fun j => nth j (abs a) 0%Z) (length (abs a)) (fun j => nth j (abs b) 0%Z) (length (abs b)).
+Proof. unfold lex_cmp. rewrite !abs_length, lex_loop_abs by lia. reflexivity. Qed.
+
 Section SortOps.
 Variables (jk : Z) (sq : nat).
 Implicit Types (ow : bool) (q : q1).
